@@ -1,5 +1,6 @@
 import Secp.Hand.Field
 import Secp.Spec.Fp
+import Secp.Gen.Facts
 /-!
 # Hand-written model of the `Scalar` API (`/repo/scalar.go`) on Montgomery limbs
 Tied to the code by the correspondence family `SC.*`.
@@ -24,8 +25,9 @@ def setUInt64 (i : Nat) : L4 := FiatScalar.toMontgomery ⟨i, 0, 0, 0⟩
 
 def limb (n : L4) (i : Nat) : Nat := match i with | 0 => n.l0 | 1 => n.l1 | 2 => n.l2 | _ => n.l3
 
-/-- number of positions the loop in `Scalar.Bits` fills in (`for i := range bitsLoopBound`) -/
-def bitsLoopBound : Nat := 255
+/-- number of positions the loop in `Scalar.Bits` fills in: read from the source on every run
+(`for i := range N`, extracted by `go2lean` into `Facts.bitsLoopBound`) -/
+def bitsLoopBound : Nat := Facts.bitsLoopBound
 
 /-- `Bits`: 256 entries; entry `i` for `i < bitsLoopBound` is bit `i` of the canonical value -/
 def bits (s : L4) : List Nat :=
@@ -36,8 +38,10 @@ def equal (s : L4) (t : Option L4) : Nat := match t with | none => 0 | some t =>
 def isZero (s : L4) : Bool := FiatScalar.isFEZero s = 1
 def isOne (s : L4) : Bool := FiatScalar.equal s FiatScalar.oneConst = 1
 
-/-- `LessOrEqual` exactly as written: a borrow chain over the *stored* limbs -/
-def lessOrEqual (s t : L4) : Nat :=
+/-- `LessOrEqual`: both operands leave the Montgomery domain, then a 4-limb borrow chain -/
+def lessOrEqual (s0 t0 : L4) : Nat :=
+  let s := FiatScalar.fromMontgomery s0
+  let t := FiatScalar.fromMontgomery t0
   let d0 := sub64 s.l0 t.l0 0
   let d1 := sub64 s.l1 t.l1 d0.2
   let d2 := sub64 s.l2 t.l2 d1.2
@@ -48,7 +52,7 @@ def lessOrEqual (s t : L4) : Nat :=
 /-- `CSelect`: `none` operand -> error and receiver unchanged -/
 def cselect (s : L4) (cond : Nat) (u v : Option L4) : Option Err × L4 :=
   match u, v with
-  | some u, some v => (none, FiatScalar.selectznz cond u v)
+  | some u, some v => (none, FiatScalar.selectznz (FiatScalar.isNonZero cond) u v)
   | _, _ => (some .nilScalar, s)
 
 def encode (s : L4) : Bytes := limbsToBytes (FiatScalar.fromMontgomery s)
@@ -78,5 +82,17 @@ def pow (s : L4) (t : Option L4) : L4 :=
     else
       let r := Spec.powMod (os2ip (encode s)) (os2ip (encode t)) Spec.N
       (decode s (i2osp r 32)).2
+
+/-- `Random`: `for IsFEZero(&m) == 1 { ReadFull(32); Reduce; ToMontgomery }`. The entropy source is the byte
+string `s` (then failure); `io.ReadFull` assembles 32 bytes whatever the chunking, and fails (-> panic, `none`)
+when the source ends first. Second component: bytes consumed from the source. -/
+def randomAux : Nat → Bytes → Nat → Option L4 × Nat
+  | 0, s, used => (none, used + s.length)
+  | fuel+1, s, used =>
+    if s.length < 32 then (none, used + s.length) else
+    let m := FiatScalar.toMontgomery (FiatScalar.reduce (bytesToLimbs (s.take 32))).1
+    if FiatScalar.isFEZero m = 1 then randomAux fuel (s.drop 32) (used + 32) else (some m, used + 32)
+
+def random (s : Bytes) : Option L4 × Nat := randomAux (s.length / 32 + 1) s 0
 
 end Hand.Scalar
